@@ -287,6 +287,18 @@ def check(ax, case, rec):
             it.assemble.vector(fc)
             r = np.asarray(it.assemble.vector(fc, pressure=p).toarray()).ravel().reshape(-1, fb.dim)
             rec.label("pressure-keyword")
+        elif c["lseed"] % 4 == 0:
+            # a ramped item on its own container: created at the undeformed state with another pressure; the state then changes in
+            # place and the new pressure arrives through update() (a re-initialisation on the item's container), followed by an
+            # assembly without arguments
+            target = fb.values.copy()
+            fb.values[...] = 0
+            it = fem.SolidBodyPressure(fc, pressure=0.37 * p - 1.0)
+            it.assemble.vector()
+            fb.values[...] = target
+            it.update(p)
+            r = np.asarray(it.assemble.vector().toarray()).ravel().reshape(-1, fb.dim)
+            rec.label("state-changed-in-place,-pressure-through-update()")
         else:
             it = fem.SolidBodyPressure(fc, pressure=p)
             r = np.asarray(it.assemble.vector(fc).toarray()).ravel().reshape(-1, fb.dim)
